@@ -36,3 +36,4 @@ pub fn cat(parts: &[&[u8]]) -> Msg {
 }
 
 pub mod v4;
+pub mod v3;
